@@ -165,6 +165,22 @@ CHECKS = {
                   "(names are generated without blanks). No axioms.",
         technique="Rocq proofs (induction over bracketed op lists, field/ring algebra) + correspondence (vm_compute) + oracle",
         ref="§C13"),
+    "C04": dict(
+        text="C04_words: for every affine transform, tracked position, request (any subset of axes) and distance mode, "
+             "each mentioned axis carries the image of the target (absolute) or the image of the target minus the image "
+             "of the current position (relative; C04_relative_is_linear: the linear image of the displacement), and each "
+             "axis not mentioned was not requested and has equal images -- every axis that has to change is mentioned. "
+             "C04_machine: a machine at transform(tracked) is at transform(new tracked) after the emitted move. "
+             "Correspondence: the implementation's own matrix (read through apply_transform) is handed to the model, "
+             "words compared within one unit of the last place; oracle: machine == transform(position) after every move "
+             "for random compositions (pivots, contexts entered/left mid-history), partial-axis moves, rapids, probes, "
+             "polylines in both modes.",
+        note=TB + "Per-move theorems over exact rationals (the rounding clause is C01's error accounting); float "
+                  "arithmetic of matrix @ vector is not modelled (tolerance one unit of dp). Which of two numerically "
+                  "equal images differ by float noise (so whether an unchanged axis is mentioned) is not compared. "
+                  "Composition of transforms is C13's model. No axioms.",
+        technique="Rocq proof for all affine maps + tolerant correspondence (vm_compute) + end-to-end oracle",
+        ref="§C04"),
 }
 
 PENDING_REASON = "check not built yet in this session (work in progress; see DESIGN.md §10 for the order)"
